@@ -3,7 +3,10 @@ package go2coq
 // The types of ext.go and segment.go (kept apart so that the declarations they add to Config,
 // LibFunc and funcTr compile on their own).
 
-import "go/ast"
+import (
+	"go/ast"
+	"go/types"
+)
 
 const (
 	kInt64 kind = 200 + iota
@@ -22,6 +25,7 @@ type funcExt struct {
 	inputs  []string // binders of the input parameters, in the order of their call sites
 	seen    map[*ast.CallExpr]string
 	seenVar map[*ast.Ident]string // segfail.go: the reads of input variables
+	locals  []*types.Var          // segfail.go: state variables that are local pointers to table structs
 }
 
 // Segment asks for the translation of a pure run of statements in the middle of a function
